@@ -3,8 +3,10 @@ package sim
 import (
 	"bytes"
 	"context"
+	"crypto/tls"
 	"fmt"
 	"io"
+	"net"
 	"os"
 	"sync/atomic"
 	"time"
@@ -58,6 +60,17 @@ func raceScenario(s *Sim, params map[string]string) {
 	for i := 1; i <= nb; i++ {
 		cl.AddBroker(int32(i), "")
 	}
+	oldFormat := false
+	if t.Intn("oldproduce", 4) == 0 || params["oldproduce"] == "1" {
+		// brokers from before the record-batch format: produce and fetch carry
+		// message sets (format 1, compressed sets as wrapper messages)
+		for _, b := range cl.Brokers {
+			b.Versions[0] = [2]int16{0, 2}
+			b.Versions[1] = [2]int16{0, 3}
+		}
+		s.Count("brokers-with-message-format-1")
+		oldFormat = true
+	}
 	cl.AddTopic("rx", 3, func(int) int32 { return int32(1 + t.Intn("cfg", nb)) })
 	cl.AddTopic("ry", 2, func(int) int32 { return int32(1 + t.Intn("cfg", nb)) })
 	// pre-load something to read
@@ -88,7 +101,7 @@ func raceScenario(s *Sim, params map[string]string) {
 	if params["force"] == "silent-produce" {
 		cl.F = FaultCfg{Stall: 1000, StallReset: 2 * time.Second, APIs: map[int16]bool{0: true}, Until: 3 * time.Second}
 	}
-	program := Pick(t, "cfg", "writer", "reader", "group", "conn", "client", "balancers", "codecs", "batch", "conns")
+	program := Pick(t, "cfg", "writer", "reader", "group", "conn", "client", "balancers", "codecs", "batch", "conns", "tls")
 	if t.Intn("wide", 12) == 0 {
 		program = "widetopics"
 	}
@@ -129,6 +142,9 @@ func raceScenario(s *Sim, params map[string]string) {
 			WriteBackoffMin: 10 * time.Millisecond, WriteBackoffMax: 50 * time.Millisecond,
 			Compression: kafka.Compression(t.Intn("cfg", 5)), Logger: logf, ErrorLogger: logf,
 			Completion: func(msgs []kafka.Message, err error) { completions.Add(int64(len(msgs))) }}
+		if oldFormat && w.Compression == kafka.Zstd {
+			w.Compression = kafka.Gzip // (zstd needs record batches)
+		}
 		multi := t.Intn("cfg", 2) == 0
 		if !multi {
 			w.Topic = "rx"
@@ -422,12 +438,73 @@ func raceScenario(s *Sim, params map[string]string) {
 							}
 							msgs[j] = kafka.Message{Value: v}
 						}
-						conn.WriteCompressedMessages(kafka.Compression(1+r.intn(4)).Codec(), msgs...)
+						cc := 1 + r.intn(4)
+						if oldFormat && cc == 4 {
+							cc = 1 // (zstd needs record batches)
+						}
+						conn.WriteCompressedMessages(kafka.Compression(cc).Codec(), msgs...)
 					}
 					ops.Add(1)
 				}
 			})
 		}
+
+	case "tls":
+		// a Transport with a TLS configuration that names no server (it is
+		// filled in per connection from the broker's address), a two-host
+		// bootstrap list and several requests at once, so that several
+		// connections are set up at the same time
+		roots, certs, err := raceTLSPKI()
+		if err != nil {
+			s.Fail("SIM", "tls-pki", "%v", err)
+			break
+		}
+		tr := &kafka.Transport{TLS: &tls.Config{RootCAs: roots}, ClientID: "race", DialTimeout: 2 * time.Second, MetadataTTL: Pick(t, "cfg", 5*time.Second, 100*time.Millisecond), IdleTimeout: Pick(t, "cfg", 30*time.Second, 50*time.Millisecond),
+			Dial: func(ctx context.Context, network, address string) (net.Conn, error) {
+				host, _, err := net.SplitHostPort(address)
+				if err != nil {
+					return nil, err
+				}
+				cert, ok := certs[host]
+				if !ok {
+					return nil, &net.DNSError{Err: "no such host", Name: host, IsNotFound: true}
+				}
+				cend, send := net.Pipe()
+				// (net.Pipe has no buffering: the strictly alternating TLS 1.2 handshake)
+				go serveTLSBroker(tls.Server(send, &tls.Config{Certificates: []tls.Certificate{cert}, MaxVersion: tls.VersionTLS12}))
+				return cend, nil
+			}}
+		client := &kafka.Client{Addr: kafka.TCP(raceTLSHosts[0]+":9092", raceTLSHosts[1]+":9092"), Transport: tr, Timeout: 2 * time.Second}
+		var tlsOK atomic.Int64
+		s.AtEnd(func() {
+			s.hmu.Lock()
+			s.Stats["requests-over-tls-succeeded"] += int(tlsOK.Load())
+			s.hmu.Unlock()
+		})
+		na := t.Range("cfg", 3, 8)
+		for a := 0; a < na; a++ {
+			r := seedOf()
+			s.Go(fmt.Sprintf("t%d", a), func() {
+				for i := 0; i < 1+r.intn(3); i++ {
+					ctx, cancel := context.WithTimeout(context.Background(), 2*time.Second)
+					var rerr error
+					if r.intn(2) == 0 {
+						_, rerr = client.ApiVersions(ctx, &kafka.ApiVersionsRequest{})
+					} else {
+						_, rerr = client.Metadata(ctx, &kafka.MetadataRequest{})
+					}
+					cancel()
+					if rerr == nil {
+						tlsOK.Add(1)
+					}
+					ops.Add(1)
+					if r.intn(2) == 0 {
+						time.Sleep(r.dur(0, 200*time.Millisecond))
+					}
+				}
+			})
+		}
+		cleanup = append(cleanup, tr.CloseIdleConnections)
 
 	case "batch":
 		d := &kafka.Dialer{DialFunc: n.Dialer("race-batch"), ClientID: "race", Timeout: 2 * time.Second}
